@@ -37,7 +37,8 @@ META = {
              'to depth 2 (quick) / 3 (thorough), packed into classes of <= 5 fields, the same positions as one-field YAMLWizard / TOMLWizard classes, + random class models '
              '(quick 80, thorough 2000) + classes with non-snake identifiers under NONE; x key transform {default, CAMEL, PASCAL, LISP, SNAKE, NONE} x root kind {plain, JSONWizard, '
              '+JSONFileWizard, YAMLWizard, TOMLWizard}. Names: 30% from the wider snake grammar (one-letter words, digits at word ends): the round trip is demanded whenever the MODEL '
-             'says keys_ok (the theorem\'s hypothesis), and a class whose keys do not resolve in the model either is counted outside_domain. Values: tzinfo zoo, negative timedeltas, '
+             'says keys_ok (the theorem\'s hypothesis); 30% of the multi-field classes use canonical name FAMILIES that collide modulo underscores / case (username + user_name); Enum zoo (values naming '
+             'other members, aliases, mixed types, Flag). The round trip is demanded whenever the model says keys_ok, and a class whose keys do not resolve in the model either is counted outside_domain. Values: tzinfo zoo, negative timedeltas, '
              'huge ints, a 45-string zoo (line endings incl. \\r\\n, control chars, astral/combining unicode, quotes, whitespace, look-alikes of numbers/dates/bools/null) swept '
              'completely through field / list element / dict key / dict value x every root kind; Optional and Union elements laid out None-first, None-in-the-middle, complex-first; '
              'every dict-like container with the leaf as key. Histories: half of the models with nested dataclasses dump every nested instance on its own before the owner\'s first dump (default key spelling only: F10). '
@@ -123,7 +124,7 @@ def all_canonical(ty):
 def make_cases(ctx):
     cases = []
     r = ctx.sub_rng('sys')
-    g = Gen(r, {'neg_timedelta': True, 'nonfinite': False, 'odd_offsets': True, 'ext_names': 0.3, 'wild_names': 0.1, 'us_runs': 0.08, 'same_named_enums': 0.3})   # sub-minute UTC offsets (repaired F43) stay in
+    g = Gen(r, {'neg_timedelta': True, 'nonfinite': False, 'odd_offsets': True, 'ext_names': 0.3, 'wild_names': 0.1, 'us_runs': 0.08, 'same_named_enums': 0.3, 'name_families': 0.3, 'spellings': 0.3, 'no_nonefirst': True})   # sub-minute UTC offsets (repaired F43) stay in
     items = systematic_types(g, 2 if ctx.tier == 'quick' else 3, leaves=C01_LEAVES)
     if ctx.tier != 'quick':
         d3 = [it for it in items if it[0].count('<') == 2]
@@ -170,7 +171,7 @@ def make_cases(ctx):
                 zi += 1
     r2 = ctx.sub_rng('rand')
     for j in range(80 if ctx.tier == 'quick' else 2000):
-        g2 = Gen(r2, {'neg_timedelta': True, 'nonfinite': r2.random() < 0.2, 'odd_offsets': r2.random() < 0.3, 'ext_names': 0.3, 'wild_names': 0.1, 'us_runs': 0.08, 'same_named_enums': 0.3})
+        g2 = Gen(r2, {'neg_timedelta': True, 'nonfinite': r2.random() < 0.2, 'odd_offsets': r2.random() < 0.3, 'ext_names': 0.3, 'wild_names': 0.1, 'us_runs': 0.08, 'same_named_enums': 0.3, 'name_families': 0.3, 'spellings': 0.3, 'no_nonefirst': True})
         nf = r2.choice([1, 2, 3, 4])
         tys = []
         while len(tys) < nf:
